@@ -208,9 +208,89 @@ def replace_history(seed, res):
     res.outcome(('replace-history',))
 
 
+def _section_classes():
+    from pico8.gfx.gfx import Gfx
+    from pico8.map.map import Map
+    from pico8.gff.gff import Gff
+    from pico8.sfx.sfx import Sfx
+    from pico8.music.music import Music
+    return {'gfx': Gfx, 'map': Map, 'gff': Gff, 'music': Music, 'sfx': Sfx}
+
+
+def _construct(cls, name, buf, how, gfx=None):
+    if how == 'from_bytes':
+        return cls.from_bytes(buf, version=33, gfx=gfx) if name == 'map' else cls.from_bytes(buf, version=33)
+    return cls(data=buf, version=33, gfx=gfx) if name == 'map' else cls(data=buf, version=33)
+
+
+ALIAS_WRITES = [(0x1ffd, 0x2003), (0x30fe, 0x3102), (0x3000, 0x3100), (0x3100, 0x3200), (0x2ffe, 0x3001), (0x31ff, 0x3201),
+                (0x42fe, 0x4300), (0, 2), (0, 0x4300)]
+
+
+def alias_history(seed, res):
+    """'Only there' also means: not in another cart and not in the buffers a caller used to build the sections.
+    Carts whose sections were installed through the public constructors from bytearrays that something else still
+    refers to (the caller's buffer, another region of the same cart, another cart, another cart's to_bytes())."""
+    from pico8.game.game import Game
+    classes = _section_classes()
+    for how in ('from_bytes', 'init'):
+        for mode in ('shared-buffers', 'copied-between-carts'):
+            base = bytearray(initial(seed, 0))
+            base[0x3100:0x3200] = base[0x3000:0x3100]        # gff and music start out equal: one buffer can serve both
+            base = bytes(base)
+            bufs = {}
+            a, b = Game.make_empty_game(), Game.make_empty_game()
+            if mode == 'shared-buffers':
+                for name, lo, hi in REGIONS:
+                    bufs[name] = bufs['gff'] if name == 'music' else bytearray(base[lo:hi])
+                for g in (a, b):
+                    g.gfx = _construct(classes['gfx'], 'gfx', bufs['gfx'], how)
+                    for name in ('map', 'gff', 'music', 'sfx'):
+                        setattr(g, name, _construct(classes[name], name, bufs[name], how, gfx=g.gfx))
+            else:
+                a = make_game(base)
+                b.gfx = _construct(classes['gfx'], 'gfx', a.gfx.to_bytes(), how)
+                for name in ('map', 'gff', 'music', 'sfx'):
+                    setattr(b, name, _construct(classes[name], name, getattr(a, name).to_bytes(), how, gfx=b.gfx))
+            models = {'a': base, 'b': base}
+            games = {'a': a, 'b': b}
+            hist = []
+            for k, (s, e) in enumerate(ALIAS_WRITES):
+                tgt = 'a' if k % 2 == 0 else 'b'
+                other = 'b' if tgt == 'a' else 'a'
+                res.evaluations += 1
+                nviol = len(res.violations)
+                ok, models[tgt] = apply_and_check(games[tgt], models[tgt], s, e, fill(seed, k % 5 + 1), res, hist)
+                hist = hist + [[s, e]]
+                case = {'alias': [how, mode], 'hist': hist}
+                if not ok:
+                    for sig in list(res.violations):
+                        if not sig.startswith('C18|alias'):
+                            v = res.violations.pop(sig)
+                            res.violations['C18|alias|%s|%s|%s' % (how, mode, sig.split('|', 1)[1])] = (
+                                v[0] + ' [cart built with %s, %s]' % (how, mode), case, v[2])
+                    break
+                if image(games[other]) != models[other]:
+                    bad = next(i for i in range(TOTAL) if image(games[other])[i] != models[other][i])
+                    res.violation('C18|alias|other-cart-changed|%s|%s' % (how, mode),
+                                  'write [%#x,%#x) into one cart changed byte %#x of ANOTHER cart (sections built with %s, %s)' % (
+                                      s, e, bad, how, mode), case)
+                    break
+                stale = [n for n, (_, lo, hi) in zip([r[0] for r in REGIONS], REGIONS)
+                         if n in bufs and bytes(bufs[n]) != base[lo:hi]]
+                if stale:
+                    res.violation('C18|alias|caller-buffer-changed|%s|%s' % (how, mode),
+                                  'write [%#x,%#x) changed the caller\'s own bytearray used to build section %s' % (
+                                      s, e, stale[0]), case)
+                    break
+                res.nontriv(('alias', how, mode, k))
+            else:
+                res.outcome(('alias', how, mode))
+
+
 def shards(tier, seed):
     depth, deltas = plan(tier)
-    return [(tier, seed, init, i) for init in (0, 1) for i in range(len(WRITES[deltas[0]]))] + [('replace', seed)]
+    return [(tier, seed, init, i) for init in (0, 1) for i in range(len(WRITES[deltas[0]]))] + [('replace', seed), ('alias', seed)]
 
 
 def run_shard(item):
@@ -218,6 +298,11 @@ def run_shard(item):
         res = ShardResult()
         replace_history(item[1], res)
         res.sample({'history': 'write x6; replace section object(s); write x6; ... on one Game'})
+        return res
+    if item[0] == 'alias':
+        res = ShardResult()
+        alias_history(item[1], res)
+        res.sample({'history': 'two carts built by the public constructors from shared bytearrays / from each other\'s to_bytes(); 9 boundary writes alternating between them'})
         return res
     tier, seed, init, i = item
     depth, deltas = plan(tier)
@@ -234,6 +319,9 @@ def replay(case):
     res = ShardResult()
     if 'replace' in case:
         replace_history(0, res)
+        return [(s, v[0]) for s, v in res.violations.items()]
+    if 'alias' in case:
+        alias_history(0, res)
         return [(s, v[0]) for s, v in res.violations.items()]
     hist = case['hist']
     for init in (0, 1):
